@@ -488,3 +488,62 @@ pub fn parse_word(v: &Value) -> Result<u32, String> {
 pub fn parse_words(v: &Value) -> Result<Vec<u32>, String> {
     v.as_array().ok_or("words must be an array")?.iter().map(parse_word).collect()
 }
+
+// ---------------------------------------------------------------------------------------------
+// thread-safe statistics for random (proptest) generators
+
+pub struct RStats {
+    inner: std::sync::Mutex<RInner>,
+}
+
+struct RInner {
+    cases: u64,
+    nontrivial: u64,
+    distinct: Distinct,
+    classes: BTreeMap<String, u64>,
+    samples: Vec<Value>,
+    frozen: bool,
+}
+
+impl Default for RStats {
+    fn default() -> Self {
+        Self::new()
+    }
+}
+
+impl RStats {
+    pub fn new() -> Self {
+        RStats { inner: std::sync::Mutex::new(RInner { cases: 0, nontrivial: 0, distinct: Distinct::new(), classes: BTreeMap::new(), samples: Vec::new(), frozen: false }) }
+    }
+    /// record one generated case: `hash` identifies it, `nontrivial` by the property's rule
+    pub fn note(&self, hash: u64, nontrivial: bool, label: Option<&str>, sample: impl FnOnce() -> Value) {
+        let mut g = self.inner.lock().unwrap();
+        if g.frozen {
+            return;
+        }
+        g.cases += 1;
+        if g.distinct.insert(hash) && nontrivial {
+            g.nontrivial += 1;
+        }
+        if let Some(l) = label {
+            *g.classes.entry(l.to_string()).or_insert(0) += 1;
+        }
+        if nontrivial && g.samples.len() < 3 && g.cases % 997 == 13 {
+            g.samples.push(sample());
+        }
+    }
+    /// stop counting: called at the first failure (the test closure is re-run while shrinking)
+    pub fn freeze(&self) {
+        self.inner.lock().unwrap().frozen = true;
+    }
+    pub fn flush(&self, run: &mut Run, name: &str, kind: &str, domain: Option<u64>, note: &str) {
+        let mut g = self.inner.lock().unwrap();
+        run.generator(name, kind, domain, g.cases, g.nontrivial, note);
+        for (k, v) in g.classes.iter() {
+            run.class(&format!("{}: {}", name, k), *v);
+        }
+        for s in g.samples.drain(..) {
+            run.sample(s);
+        }
+    }
+}
